@@ -9,6 +9,7 @@ import (
 	"strconv"
 	"strings"
 	"sync/atomic"
+	"syscall"
 	"testing"
 	"time"
 
@@ -182,8 +183,18 @@ func runHand(fn string, rd string, segs enc.Wire) (res string) {
 }
 
 // TestChild executes the cases of VERIF_CASES from line VERIF_START on. Before every call it writes "S <line>" and
-// flushes, after it the result line, so a hard crash (fatal error, exit) or a hang (watchdog: exit 3 after
-// VERIF_WATCHDOG_MS in one call) leaves the failing case identified on disk.
+// flushes, after it the result line, so a hard crash (fatal error, exit) or a hang (exit 3 once one call has consumed the CPU-time
+// budget) leaves the failing case identified on disk.
+
+// cpuMillis: user + system CPU time of this process so far.
+func cpuMillis() int64 {
+	var ru syscall.Rusage
+	if err := syscall.Getrusage(syscall.RUSAGE_SELF, &ru); err != nil {
+		return 0
+	}
+	return (ru.Utime.Sec+ru.Stime.Sec)*1000 + int64(ru.Utime.Usec+ru.Stime.Usec)/1000
+}
+
 func TestChild(t *testing.T) {
 	if err := LoadSchemas(os.Getenv("VERIF_SCHEMAS")); err != nil {
 		t.Fatal(err)
@@ -201,15 +212,46 @@ func TestChild(t *testing.T) {
 	}
 	defer of.Close()
 	var cur int64 = -1
-	var curStart int64
+	var curStart int64  // wall clock (ms) at the start of the current call: only ever produces a note
+	var curCPU0 int64   // CPU time (ms) of this process at the start of the current call
+	// A hang is decided by CPU TIME consumed inside one decoder call, never by the wall clock: a decoder that spins burns
+	// CPU whatever the machine load, a decoder that is merely slow because the machine is oversubscribed does not.  The
+	// budget is VERIF_CPU_BUDGET_MS (10 s; ordinary calls take micro- to milliseconds), scaled up on a slow machine by a
+	// calibration loop measured in this same process (CPU time of a fixed amount of work against its nominal 40 ms).
+	budget := int64(envInt("VERIF_CPU_BUDGET_MS", 10000))
+	{
+		c0 := cpuMillis()
+		x := uint64(1)
+		for i := 0; i < 60000000; i++ {
+			x = x*6364136223846793005 + 1442695040888963407
+		}
+		calib := cpuMillis() - c0
+		if x == 42 {
+			fmt.Fprintln(of, "# calibration", x)
+		}
+		if calib > 40 {
+			budget = budget * calib / 40
+		}
+		fmt.Fprintf(of, "# cpu budget per call %d ms (calibration loop %d ms CPU)\n", budget, calib)
+	}
+	wallNote := int64(envInt("VERIF_WALL_NOTE_MS", 1800000)) // 30 min in one call without the CPU budget being used up: a note
+	_ = wdms
 	go func() {
 		for {
 			time.Sleep(200 * time.Millisecond)
 			c := atomic.LoadInt64(&cur)
-			if c >= 0 && time.Now().UnixMilli()-atomic.LoadInt64(&curStart) > int64(wdms) {
-				fmt.Fprintf(of, "T %d\n", c)
+			if c < 0 {
+				continue
+			}
+			if cpuMillis()-atomic.LoadInt64(&curCPU0) > budget {
+				fmt.Fprintf(of, "T %d cpu-budget-exhausted\n", c)
 				of.Sync()
 				os.Exit(3)
+			}
+			if time.Now().UnixMilli()-atomic.LoadInt64(&curStart) > wallNote {
+				fmt.Fprintf(of, "W %d wall-clock-only\n", c) // no verdict from the clock: the supervisor notes it and goes on
+				of.Sync()
+				os.Exit(4)
 			}
 		}
 	}()
@@ -240,6 +282,7 @@ func TestChild(t *testing.T) {
 		}
 		fmt.Fprintf(of, "S %d\n", ln)
 		atomic.StoreInt64(&curStart, time.Now().UnixMilli())
+		atomic.StoreInt64(&curCPU0, cpuMillis())
 		atomic.StoreInt64(&cur, int64(ln))
 		switch fs[0] {
 		case "P":
